@@ -12,7 +12,7 @@ from mc.coma import make_aligner, OpticalMap, Peak, is_pair
 RULE = ("lattice worlds x maxDistance {4,6} x strand variants x every ladder of k seed peaks on the half-step grid with strides 1..3; "
         "non-trivial = list has >= 2 non-empty segments and at least one segment was trimmed or dropped; distinct by "
         "(world, maxDistance, strand, ladder)")
-ASSUMPTIONS = ["scoring (100, 1, -25), thresholds (100, 120), join scorer (1, 0): the lattice analogue of the defaults",
+ASSUMPTIONS = ["scoring (100, 1, -25), thresholds (100, 120) / (60, 120), join scorer (1, 0), (0, 0), (0.5, 1): the lattice analogue of the defaults and of legal -sj / -ss values",
                "sub-run and retention clauses use object identity of the position objects (nothing is copied by COMA at this seam)"]
 
 
@@ -173,7 +173,8 @@ def key(s):
         s.endPosition.query.position
 
 
-SCORING = [(100, 1, -25, 100, 120), (100, 1, -25, 60, 120)]     # the second lets one-pair off-diagonal segments exist
+SCORING = [(100, 1, -25, 100, 120), (100, 1, -25, 60, 120),     # the second lets one-pair off-diagonal segments exist
+           (100, 1, -25, 100, 120, 0, 0), (100, 1, -25, 60, 120, 0.5, 1)]      # join multiplier 0 (a legal -sj value) / 0.5 with -ss 1
 
 
 @core.guarded(lambda rpos, qpos, maxd, rev, pk, acc=None, aligner=None, scoring=0: dict(reference=rpos, query=qpos, maxDistance=maxd, reverse=rev, peaks=pk, scoring=scoring))
@@ -261,11 +262,12 @@ def check_case(rpos, qpos, maxd, rev, pk, acc, aligner=None, scoring=0):
 
 
 class Ladders(core.Layer):
-    def __init__(self, name, world_list, kmax, optional=False):
+    def __init__(self, name, world_list, kmax, optional=False, scorings=(0, 1)):
         self.name, self.optional = name, optional
         self.worlds = world_list
         self.kmax = kmax
-        self.bounds = dict(worlds=len(world_list), maxDistance=[4, 6], scoring_sp_dp_su_ms_bs=[list(x) for x in SCORING], ladder_sizes=[2, kmax], strides=[1, 2, 3],
+        self.scorings = scorings
+        self.bounds = dict(worlds=len(world_list), maxDistance=[4, 6], scoring_sp_dp_su_ms_bs_sj_ss=[list(SCORING[i]) for i in scorings], ladder_sizes=[2, kmax], strides=[1, 2, 3],
                            strand_variants=['+ q', '- mirror(q)', '- q'])
         self.rule = '%d lattice worlds x 2 maxDistance x 3 strand variants x all peak ladders of size 2..%d' % (len(world_list), kmax)
 
@@ -275,7 +277,7 @@ class Ladders(core.Layer):
     def run_block(self, b, acc):
         name, rpos, qpos = self.worlds[b // 4][:3]
         maxd = (4, 6)[b % 2]
-        sc = (b // 2) % 2
+        sc = self.scorings[(b // 2) % 2]
         al = make_aligner(maxd, *SCORING[sc])
         lo = -qpos[-1] // 2 // 5 * 5 - 10
         grid = list(range(lo, rpos[-1] + 10, 5)) if len(self.worlds[b // 4]) < 4 else list(self.worlds[b // 4][3])
@@ -299,9 +301,9 @@ class Ladders(core.Layer):
 def layers(tier, seed):
     base = list(base_worlds())
     if tier == 'quick':
-        return [Ladders('base,k<=4', base, 4), Ladders('derived/5,k<=3', list(derived_worlds())[::5], 3),
+        return [Ladders('base,k<=4', base, 4), Ladders('base,sj=0|0.5,k<=3', base, 3, scorings=(2, 3)), Ladders('derived/5,k<=3', list(derived_worlds())[::5], 3),
                 Ladders('indel-ladders,k<=3', list(ladder_worlds(False)), 3), Ladders('duplications,k<=3', list(dup_worlds()), 3),
                 Ladders('collisions,k<=3', list(collision_worlds()), 3)]
     der = list(derived_worlds())
-    return [Ladders('base,k<=5', base, 5), Ladders('indel-ladders,k<=4', list(ladder_worlds(True)), 4), Ladders('duplications,k<=4', list(dup_worlds()), 4), Ladders('collisions,k<=3', list(collision_worlds()), 3), Ladders('derived,k<=3', der, 3),
+    return [Ladders('base,k<=5', base, 5), Ladders('base,sj=0|0.5,k<=4', base, 4, scorings=(2, 3)), Ladders('duplications,sj=0|0.5,k<=3', list(dup_worlds()), 3, scorings=(2, 3)), Ladders('indel-ladders,k<=4', list(ladder_worlds(True)), 4), Ladders('duplications,k<=4', list(dup_worlds()), 4), Ladders('collisions,k<=3', list(collision_worlds()), 3), Ladders('derived,k<=3', der, 3),
             Ladders('derived,k=4', der, 4, optional=True)]
